@@ -592,7 +592,7 @@ func gen(o *kit.Out, r *kit.Rand, tier string) {
 	table(o)
 	nCases, nOps, nMal := 120, 90, 150
 	if tier == "thorough" {
-		nCases, nOps, nMal = 1400, 140, 600
+		nCases, nOps, nMal = 900, 140, 600
 	}
 	styles := []style{
 		{coop: 90, equiv: 30, jump: 30, garble: 20}, // healthy network, several heights
